@@ -23,8 +23,12 @@ RULE = (
     "compared with the model; the round trip load(to_xml()); and three descriptors written by the harness's own writer "
     "from a pool of declarations (identity order; a random permutation with identically / acceptably redeclared "
     "built-ins; children-before-parents order, in 30% with one built-in redeclared differently), names and references "
-    "padded with white space in a third of the scenarios. quick 600 type systems, thorough 6000. A case is non-trivial "
-    "when a run puts a subtype before its supertype or redeclares a built-in."
+    "padded with white space in a third of the scenarios. In 40% of the scenarios a fourth descriptor outside the "
+    "well-formed ones: all user declarations shuffled plus one more type that redefines an inherited feature equally "
+    "(must load, the redefinition dropped) or differently (ValueError), refers to an undeclared range / element / supertype "
+    "(KeyError) or inherits from a final array type (ValueError). Every distinct successful dump is also replayed in the "
+    "hierarchy model TS.v (create_type in creation order, then create_feature) and read back. quick 600 type systems, "
+    "thorough 6000. A case is non-trivial when a run puts a subtype before its supertype or redeclares a built-in."
 )
 TRUSTED = [
     "Coq 8.16.1 kernel and vm_compute; theorems in Props/C12.v are closed under the global context",
@@ -37,11 +41,14 @@ TRUSTED = [
     "str.strip modelled for ASCII white space; Python's sorted on str = byte order of UTF-8",
     "inherited features at the time a type receives its own = all features of its supertype chain (holds because features "
     "are added in creation order, parents first); TypeSystem._predefined_types and Feature._has_reserved_name are read for the dump",
+    "hand-written hierarchy model coq/TS.v (C10/C11) for the embedding theorems C12_loaded_WF / C12_embedding_ok; its create_type / "
+    "create_feature are evaluated in Coq on every distinct loaded content and read back against the implementation's dump",
 ]
 ASSUMPTIONS = [
     "the type system has a DocumentAnnotation (TypeSystem() default); type names are unique, non-empty, trimmed",
     "no feature is declared again along a supertype chain; references are closed; no inheritance from final array types",
     "identifiers and descriptions do not begin or end with non-ASCII white space; descriptions survive up to strip() and \"\" = absent",
+    "every typeDescription has a name with text, and (general theorems) the names are distinct after trimming",
 ]
 
 DOCANN = "uima.tcas.DocumentAnnotation"
@@ -938,6 +945,11 @@ MANIFEST = {
                   "(range, element type, tri-state flag, description, reserved names, DocumentAnnotation); re-emission of a "
                   "descriptor in written form is the identity up to trimming; any permutation of the declarations and any "
                   "admissible order give the same content; built-ins redeclared identically are accepted, differently rejected. "
+                  "Deepened: loading preserves well-formedness (third emission = second is a theorem); for ALL descriptors with "
+                  "distinct names the reader equals a declarative reading, permutations and admissible orders give the same "
+                  "content or the same kind of exception; the supertype walk never runs out of fuel and the fuel bounds of the "
+                  "premises follow from the toposort contract; a loaded content replayed in the hierarchy model of C10/C11 "
+                  "satisfies its invariants WFh/WF and reads back as the same types, supertypes and own features. "
                   "The model is tied to /repo on every run by evaluating it inside Coq on the descriptors the implementation "
                   "wrote and read.",
     "level_note": "Trusted: Coq kernel + vm_compute; hand-written model coq/Descr.v; toposort_flatten by contract (observed order "
